@@ -227,14 +227,14 @@ open Alpaqa.Panoc in
     parameter set, every stop schedule, every iteration reports `τ = 0`, no accelerated step is ever
     counted (`count_τ = 0`, `sum_τ = 0`, `τ_1_accepted = 0`). -/
 theorem noop_panoc_is_proximal_gradient (P : Problem α) (pr : Panoc.Params α) (stop : Nat → Bool)
-    (oot : Bool) (x0 y Sig errz0 gV : Vec α) (gS : α) :
-    (∀ cb ∈ (run P noopDir ⟨(), false⟩ pr stop oot x0 y Sig errz0 gV gS).callbacks,
+    (oot : Bool) (x0 y Sig errz0 gV : Vec α) (gS iS : α) :
+    (∀ cb ∈ (run P noopDir ⟨(), false⟩ pr stop oot x0 y Sig errz0 gV gS iS).callbacks,
         cb.status = .Busy → cb.tau = 0) ∧
-    (run P noopDir ⟨(), false⟩ pr stop oot x0 y Sig errz0 gV gS).stats.countTau = 0 ∧
-    (run P noopDir ⟨(), false⟩ pr stop oot x0 y Sig errz0 gV gS).stats.sumTau = 0 ∧
-    (run P noopDir ⟨(), false⟩ pr stop oot x0 y Sig errz0 gV gS).stats.tau1Accepted = 0 := by
+    (run P noopDir ⟨(), false⟩ pr stop oot x0 y Sig errz0 gV gS iS).stats.countTau = 0 ∧
+    (run P noopDir ⟨(), false⟩ pr stop oot x0 y Sig errz0 gV gS iS).stats.sumTau = 0 ∧
+    (run P noopDir ⟨(), false⟩ pr stop oot x0 y Sig errz0 gV gS iS).stats.tau1Accepted = 0 := by
   unfold run
-  cases hi : initState P (⟨(), false⟩ : Latch Noop.State) pr x0 gV gS with
+  cases hi : initState P (⟨(), false⟩ : Latch Noop.State) pr stop x0 gV gS iS with
   | inl t => simp [stats0]
   | inr s =>
     simp only []
@@ -806,7 +806,7 @@ def outOf {σ : Type} : ApplyRes σ ℚ → Option (Bool × Vec ℚ)
     Noop provider: two iterations are reported `Busy` (so `noop_panoc_is_proximal_gradient` speaks
     about a non-empty set of callbacks), both with `τ = 0`, and `x₁ = x̂₀ = 21/40`. -/
 example :
-    ((Panoc.run Pq noopDir ⟨(), false⟩ prq (stopAt none) false [1] [] [] [] [] 0).callbacks.map
+    ((Panoc.run Pq noopDir ⟨(), false⟩ prq (stopAt none) false [1] [] [] [] [] 0 0).callbacks.map
       fun cb => (cb.status, cb.tau, cb.it.x, cb.it.xhat)) =
     [(.Busy, 0, [1], [21/40]), (.Busy, 0, [21/40], [441/1600]), (.Converged, -1, [441/1600], [9261/64000])] := by
   decide +kernel
